@@ -51,6 +51,7 @@ func (sp *listSpec) menu(ids []int) []updCase {
 	for _, p := range []string{"2-", "-2"} {
 		m = append(m, updCase{[]itemSpec{{id: 0, pay: p}}, filterSpec{partial: true}})
 	}
+	m = append(m, updCase{[]itemSpec{{id: 0, pay: "2-"}}, filterSpec{}}) // filter-less with an identifier-less item
 	if sp.keyKind != "uint" && sp.keyKind != "string" {
 		return m
 	}
@@ -62,6 +63,8 @@ func (sp *listSpec) menu(ids []int) []updCase {
 		m = append(m, updCase{nil, filterSpec{del: true, delSel: id}})
 		m = append(m, updCase{nil, filterSpec{del: true, delSel: id, delElements: true}})
 	}
+	m = append(m, updCase{[]itemSpec{{id: 0, pay: "2-"}}, filterSpec{del: true, delSel: ids[0], partial: true, partialSel: ids[len(ids)-1]}},
+		updCase{[]itemSpec{{id: 0, pay: "-2"}}, filterSpec{del: true, delSel: ids[len(ids)-1], delElements: true, partial: true, partialSel: ids[0]}})
 	m = append(m, updCase{nil, filterSpec{partial: true, partialSel: ids[0]}}) // selector with an empty update list
 	m = append(m, updCase{nil, filterSpec{del: true, delSelPay: true}})
 	m = append(m, updCase{nil, filterSpec{del: true, delElements: true}})
@@ -110,6 +113,14 @@ func guard(f func()) (p any) {
 
 // c02Type explores one list type to closure (or depth) and judges every transition.
 func c02Type(sp *listSpec, ids []int, maxDepth int, r *engine.IResult) {
+	if len(sp.keys) > 1 && sp.keyKind == "uint" {
+		// multi-key identifiers: (.,1,2) and (.,2,1) collide in every single key comparison
+		if len(ids) == 2 {
+			ids = []int{2, 3}
+		} else {
+			ids = []int{1, 2, 3, 4}
+		}
+	}
 	menu := sp.menu(ids)
 	seen := map[string]bool{"[]": true}
 	frontier := [][]rec{nil}
